@@ -110,7 +110,7 @@ structure Derivers where
 
 /-- the data flow of one call of an entry point of kind `k` on the entropy stream `src`.
 
-THREE DIFFERENCES from the Rust entry points (none is visible in the differential run, which only
+FOUR DIFFERENCES from the Rust entry points (none is visible in the differential run, which only
 issues calls that succeed, on a stream long enough):
 * `run` draws UNCONDITIONALLY, the Rust checks first where it can fail: `crypto_box_seal` returns
   `Err` BEFORE `crypto_box_keypair()` when the ciphertext buffer is shorter than
@@ -118,6 +118,14 @@ issues calls that succeed, on a stream long enough):
 * `crypto_pwhash_str` runs its two `validate!` guards on `opslimit` / `memlimit` before
   `copy_randombytes(&mut salt)` (a rejected cost draws nothing); `run … .ephemeral` /
   `run … .saltText` model the succeeding call only;
+* a THIRD ordering, the opposite one: `PwHash::hash(password, config)` (pwhash.rs) does
+  `salt.resize(config.salt_length, 0); copy_randombytes(salt.as_mut_slice());` and only THEN calls
+  `crypto_pwhash(..)?`, which validates (`opslimit`, `memlimit`; then `argon2_hash` the output and salt
+  lengths): it DRAWS
+  `salt_length` bytes and then returns `Err` on an invalid config — a failing call has consumed entropy —, while
+  `crypto_pwhash_str` validates first and a failing call has consumed none.  `run … (.raw n)` (the table's
+  `pwhash_hash*` rows) has the stream effect of both the succeeding and the failing `PwHash::hash`, but reports a
+  value (`comp`) that the failing call does not return;
 * the verification hook `rng::verif_hooks::fill` reads the installed bytes CYCLICALLY
   (`bytes[pos % len]`), so a request is always served in full, whereas `List.take` TRUNCATES at
   the end of `src`: the two agree exactly when `k.consumed ≤ src.length` — the hypothesis the
